@@ -59,7 +59,7 @@ fn result_text(v: &Value) -> Option<String> { v["result"]["content"][0]["text"].
 
 pub fn run(ctx: &mut Ctx) {
     let prop = "C20";
-    ctx.ev.rule = "generated sessions of 4–14 JSON-RPC requests over the five tools and the resource methods (valid ledgers, uncovered ledgers, garbage text, wrong argument types, missing fields, unknown tools, bad currencies/months, unknown resource URIs), each run pipelined (all lines written at once, handled concurrently) and one at a time, against the real `cgt-tool mcp` process: every request id gets exactly one response (result or JSON-RPC error), no other ids appear, the server exits 0 when its input closes; the same request gives the same answer at any position, in either mode; calculate_report's JSON equals `cgt-tool report --format json` for the same text (tax years and holdings); every disposal it lists is explained by explain_matching. Known-finding classes mcpUndecodable (D15) and overflowMagnitude (D9) are probed once per run and not mixed into the sessions. Non-trivial = sessions with ≥ 1 failing request followed by a succeeding one; distinct by request list.".into();
+    ctx.ev.rule = "generated sessions of 4–14 JSON-RPC requests over the five tools and the resource methods (valid ledgers, uncovered ledgers, garbage text, wrong argument types, missing fields, unknown tools, bad currencies/months, unknown resource URIs), each run pipelined (all lines written at once, handled concurrently) and one at a time, against the real `cgt-tool mcp` process: every request id gets exactly one response (result or JSON-RPC error), no other ids appear, the server exits 0 when its input closes; the same request gives the same answer at any position, in either mode; calculate_report's JSON equals `cgt-tool report --format json` for the same text (tax years and holdings); every disposal it lists is explained by explain_matching (the first session always carries a ledger with disposals on 5 and 6 April of leap and ordinary years, 29 February and the calendar-year ends). Known-finding classes mcpUndecodable (D15) and overflowMagnitude (D9) are probed once per run and not mixed into the sessions. Non-trivial = sessions with ≥ 1 failing request followed by a succeeding one; distinct by request list.".into();
     if !cli::available() { ctx.ev.notes.push("cgt-tool binary not found: nothing checked".into()); ctx.ev.violation("correspondence", "cgt-tool binary missing".into(), "# property C20\n".into()); return; }
     let mut r = Rng::new(ctx.seed ^ 0xC20);
     let mut cfg = GenCfg::standard();
@@ -87,6 +87,14 @@ pub fn run(ctx: &mut Ctx) {
                 10 => json!({"jsonrpc":"2.0","id":id,"method": *r.pick(&["resources/list", "tools/list"])}),
                 _ => json!({"jsonrpc":"2.0","id":id,"method":"resources/read","params":{"uri": *r.pick(&["cgt://docs/dsl-syntax", "cgt://docs/tax-rules", "cgt://docs/none", "file:///etc/passwd"])}}),
             });
+        }
+        if si == 0 {
+            // every run: disposals on both sides of 5/6 April in leap and ordinary years, 29 February,
+            // year ends — each must be listed by calculate_report and explained by explain_matching
+            let text = "2019-01-10 BUY AAA 1000 @ 1\n2020-04-05 SELL AAA 1 @ 2\n2020-04-06 SELL AAA 1 @ 2\n2023-04-05 SELL AAA 1 @ 2\n2023-04-06 SELL AAA 1 @ 2\n2024-02-29 SELL AAA 1 @ 2\n2024-04-05 SELL AAA 1 @ 2\n2024-04-06 SELL AAA 1 @ 2\n2024-12-31 SELL AAA 1 @ 2\n2025-01-01 SELL AAA 1 @ 2\n".to_string();
+            let id = 100 + nreq;
+            expect_cli.push((id, text.clone()));
+            reqs.push(call(id, "calculate_report", json!({"transactions": text})));
         }
         let key = format!("{:?}", reqs.iter().map(|v| v.to_string()).collect::<Vec<_>>());
         let mut texts: Vec<std::collections::BTreeMap<u64, String>> = Vec::new();
